@@ -42,7 +42,7 @@ def value_strategy():
 @st.composite
 def cases(draw):
     config = draw(st.sampled_from(["html", "html", "xml", "explicit",
-                                   "empty"]))
+                                   "empty", "xml_explicit"]))
     statics, seen = [], set()
     for _ in range(draw(st.integers(0, 5))):
         n = draw(st.sampled_from(NAMES))
@@ -60,7 +60,9 @@ def cases(draw):
         else:
             parts = [["lit", draw(st.sampled_from(
                 ["s", "", "a b", "x&amp;y", "1 > 0", n, "é",
-                 "it's" if quote == '"' else 'say "hi"']))]]
+                 "it's" if quote == '"' else 'say "hi"',
+                 # dollar signs that start no interpolation: as written
+                 "US$$", "$$name", "$5", "$$$$", "a $ b", "$x.y", "{$$}"]))]]
         statics.append([draw(st.sampled_from([" ", "  ", "\n   "])), n, quote,
                         parts])
     dyn, dseen, dseen_exact = [], set(), set()
@@ -126,7 +128,7 @@ def build(case):
         el["stmts"]["attributes"] = case["dyn"]
     nodes = [["elem", el]]
     src = tmodel.serialize(nodes).text()
-    if case["config"] == "xml":
+    if case["config"] in ("xml", "xml_explicit"):
         src = '<?xml version="1.0"?>' + src
     return el, src
 
@@ -134,7 +136,8 @@ def build(case):
 def booleans_of(case):
     if case["config"] in ("xml", "empty"):
         return set()
-    if case["config"] == "explicit":
+    if case["config"] in ("explicit", "xml_explicit"):
+        # a configured collection applies whatever the document type
         return set(EXPLICIT_BOOL)
     return set(HTML_BOOL)
 
@@ -226,8 +229,16 @@ def model(case, k6=False, k10=False):
         if n is None:
             for k, v in dicts[pos].items():
                 # a later named entry or a later dictionary overrides
-                later_named = any(p2 > pos and n2 == k for p2, (n2, _e)
-                                  in enumerate(dyn) if n2 is not None)
+                # (named entries that differ only by case are ONE entry,
+                # standing where the first stands and spelled like the last:
+                # only that spelling is compared with dictionary keys - the
+                # property does not say how two spellings in one statement
+                # relate to a dictionary key)
+                later_named = any(
+                    min(p3 for p3, (n3, _e3) in enumerate(dyn)
+                        if n3 is not None and n3.lower() == n2.lower()) > pos
+                    and named[n2.lower()][1] == k
+                    for p2, (n2, _e) in enumerate(dyn) if n2 is not None)
                 if k6:
                     # positional rule of the implementation: only entries
                     # that are *appended after* the dictionary count
@@ -253,7 +264,9 @@ def model(case, k6=False, k10=False):
         # stands where the first one stands and takes the last one's name
         # and value (char.)
         lpos, n, e = named[n.lower()]
-        if overridden_by_dict(n, lpos):
+        # (K6: ... and the merged entry also keeps the first one's place in
+        # the positional override order)
+        if overridden_by_dict(n, first if k6 else lpos):
             continue
         v = it.eval(e, with_default=True)
         if n in bools:
@@ -304,7 +317,7 @@ class Attributes(Part):
         from chameleon import PageTemplate
         el, src = build(case)
         cfg = {}
-        if case["config"] == "explicit":
+        if case["config"] in ("explicit", "xml_explicit"):
             cfg["boolean_attributes"] = set(EXPLICIT_BOOL)
         elif case["config"] == "empty":
             # an explicitly empty collection: no boolean attributes at all
